@@ -614,7 +614,7 @@ def check(run):
     lines += uvpairs
     moff = len(lines)
     lines += misc
-    # the implementation is built and run in a thread while the property file is proved (the Print Assumptions of 44 theorems
+    # the implementation is built and run in a thread while the property file is proved (the Print Assumptions of the theorems
     # dominate the wall time); the model is extracted and run afterwards
     side = {}
 
